@@ -32,8 +32,8 @@ def child_probe(ctx, cls, attr, t, rng):
     obj = None
     lost = None
     cn = cls.__name__
-    for _ in range(8):
-        args, kw = H.gen_args(ctx, cls, rng, 1, 0.15, force=attr)
+    for attempt in range(48):      # the generator, not the class, must never be the reason a child is not exhibited: many tries, several shapes
+        args, kw = H.gen_args(ctx, cls, rng, (1, 2, 1, 0, 2, 3)[attempt % 6], (0.15, 0.4, 0.05)[attempt % 3], force=attr)
         try:
             with warnings.catch_warnings():
                 warnings.simplefilter("ignore")
